@@ -1,6 +1,7 @@
 (* Properties_C15.v — C15: equality, ordering and hashing of the value types
    agree with each other. *)
-From TP Require Import Base Elem Parser Order P_Order Tie_Glyph.
+From TP Require Import Base Elem Parser Order P_Order Tie_Glyph Term Oracle Strings P_Strings.
+From Coq Require Import Lia ZifyBool ZifyN.
 Local Open Scope N_scope.
 
 (* the laws the property asks for, for a type with operators (eqb, cmp):
@@ -84,3 +85,27 @@ Theorem C15_real_glyph_operators :
     (combine (flat_map (fun a => map (fun b => glyph_result a b) gs) gs) Generated.g_glyph_results) = true.
 Proof. exact (proj1 tie_glyph_grid). Qed.
 Print Assumptions C15_real_glyph_operators.
+
+(* the same for UTF-8 glyphs: a glyph constructed from a pointer into a text is
+   the glyph of the text's first character - equal to the one made from that
+   character alone, whatever follows it in the text (defect D10, fixed: the
+   byte after a two-byte character used to be stored as well) *)
+Theorem C15_glyph_from_text :
+  forall g rest, gcs g = CsUtf8 -> wf_utf8 g = true ->
+    glyph_of_cstr (wire g ++ rest) = g /\
+    glyph_eqb (glyph_of_cstr (wire g ++ rest)) (glyph_of_array (wire g)) = true.
+Proof.
+  intros g rest Hc Hwf. rewrite (glyph_of_cstr_wire g rest Hc Hwf). split; [reflexivity|].
+  pose proof (glyph_of_cstr_wire g [] Hc Hwf) as H. rewrite app_nil_r in H.
+  assert (E : glyph_of_array (wire g) = glyph_of_cstr (wire g)).
+  { destruct g as [c b0 b1 b2]. cbn [gcs] in Hc. subst c. rewrite H.
+    unfold wf_utf8, cont in Hwf. cbn [g0 g1 g2] in Hwf.
+    unfold glyph_of_array, wire, utf8_len, hi. cbn [gcs g0 g1 g2]. change (cs_eqb CsUtf8 CsUtf8) with true. cbn iota.
+    destruct (128 <=? b0) eqn:E0; cbn [negb].
+    - destruct (128 <=? b1) eqn:E1; cbn [negb]; [|exfalso; lia].
+      destruct (128 <=? b2) eqn:E2; cbn [negb nth]; [reflexivity|].
+      assert (b2 = 0) as -> by lia. reflexivity.
+    - cbn [nth]. assert (b1 = 0 /\ b2 = 0) as [-> ->] by lia. reflexivity. }
+  rewrite E, H. exact (proj1 (ord_laws _ _ ord_glyph) g).
+Qed.
+Print Assumptions C15_glyph_from_text.
